@@ -59,8 +59,8 @@ WRAPPER = "c14w"
 GCC = ["gcc", "-O1", "-mavx2", "-mfma", "-mavx512f", "-mavx512bw", "-mavx512vl",
        "-fsanitize=address,undefined", "-fno-sanitize-recover=all", "-g0"]
 RUN_ENV = {"ASAN_OPTIONS": "detect_leaks=0:abort_on_error=0:exitcode=23", "UBSAN_OPTIONS": "print_stacktrace=0"}
-RUN_TIMEOUT = 30
-GCC_TIMEOUT = 120
+RUN_TIMEOUT = 300
+GCC_TIMEOUT = 1500
 
 # (memory, basetype) -> (load instruction, store instruction) of the library itself
 REG_IO = {
@@ -776,7 +776,7 @@ def _run(exe, args, workdir):
         r = subprocess.run([exe] + args, capture_output=True, text=True, timeout=RUN_TIMEOUT, env=env, errors="replace")
     except subprocess.TimeoutExpired as e:
         so = e.stdout.decode(errors="replace") if isinstance(e.stdout, bytes) else (e.stdout or "")
-        return "run_error", f"timeout after {RUN_TIMEOUT}s", so
+        return "infra_error", f"run timeout after {RUN_TIMEOUT}s", so
     if r.returncode != 0 or "runtime error" in r.stderr or "AddressSanitizer" in r.stderr:
         err = [l for l in r.stderr.splitlines() if l.strip()]
         key = [l for l in err if "runtime error" in l or "ERROR: AddressSanitizer" in l or "SUMMARY" in l]
@@ -817,7 +817,8 @@ def gcc_and_run(pieces, workdir, tag, pch=None):
     for wname, p in pieces:
         exe, err = _gcc(standalone(p, wname), workdir, f"{tag}_{wname}", pch)
         if exe is None:
-            res[wname] = ("gcc_error", err, "")
+            # a compiler that does not come back is the machine's problem, not the instruction's
+            res[wname] = ("infra_error" if err == "gcc timeout" else "gcc_error", err, "")
             continue
         res[wname] = _run(exe, [], workdir)
         try:
